@@ -168,7 +168,7 @@ def circshift_inputs(ctx, np):
     else:
         d = r.choice([64, 128, 512, r.randint(17, 300)])
     dd = d if d is not None else ln + start
-    skind = r.choice(["int", "int", "neg", "big", "frac", "zero", "npint"])
+    skind = r.choice(["int", "int", "neg", "big", "frac", "zero", "npint", "huge"])
     if skind == "int":
         shift = r.randint(0, max(0, dd - 1))
     elif skind == "neg":
@@ -179,6 +179,9 @@ def circshift_inputs(ctx, np):
         shift = r.choice([0.5, -1.25, 2.75, r.randint(-40, 40) / 8.0])
     elif skind == "npint":
         shift = r.randint(-dd, 2 * dd)
+    elif skind == "huge":
+        # a delay counted in samples over hours or days of audio: exceeds the DFT size by many orders of magnitude
+        shift = r.choice([16000 * 3600 * 24 + 11, 10 ** 9 + 7, 10 ** 12 + 7, -(10 ** 10 + 3), 2 ** 40 + r.randint(0, 1000)])
     else:
         shift = 0
     copy = r.choice([True, False, None])
